@@ -1,4 +1,5 @@
 import sys
+# session.go scanColumn tuple: a null tuple cell skips its destinations instead of nulling them
 p=sys.argv[1]+'/session.go'; s=open(p).read()
 old="""		count := len(tuple.Elems)
 """
